@@ -169,3 +169,21 @@ def register(reg):
                           f'all({DS}[j].docstring is None for j in range(k)) and '
                           f"result[0] == ({DS}[k].docstring if {DS}[k].docstring != '' else None) for k in range(len({DS}))))"],
                  loops={0: Loop(index='i', invariant=[f'all({DS}[j].docstring is None for j in range(i))'])})
+    # the 'overrides' note on a class page: the first definition along the linearisation after the class itself
+    PGI = 'pydoctor/templatewriter/pages/__init__.py'
+    reg.contract('pydoctor/linker.py', 'taglink', params={'o': 'Ref[Documentable]', 'page_url': 'Str', 'label': 'Opt[Obj[Flat]]'},
+                 returns='Obj[Tag]', raises={}, assumed=True, source='verified under C11/C12')
+    reg.contract(MD, 'Documentable.page_object', returns='Ref[Documentable]', pure=True, raises={}, assumed=True, reads=['parent'], source='C11')
+    reg.contract(MD, 'Documentable.url', returns='Str', pure=True, raises={}, assumed=True, reads=['name', 'parent'], source='C11')
+    reg.assume_ext('twisted.web.template.tags.div', params={'class_': 'Str'}, returns='Obj[Tag]', raises={}, source='stan')
+    reg.assume_ext('twisted.web.template.tags.code', params={'child': 'Any'}, returns='Obj[Tag]', raises={}, source='stan')
+    reg.assume_ext('<Tag>.__call__', params={'self': 'Obj[Tag]', 'a': 'Any', 'b': 'Any'}, returns='Obj[Tag]', raises={}, source='stan')
+    REST = 'lin(cls)[1:]'
+    reg.contract(PGI, 'get_override_info', params={'cls': 'Ref[Class]', 'member_name': 'Str', 'page_url': 'Opt[Str]'},
+                 region={'name': 'overrides', 'start': 'page_url = page_url or cls.page_object.url', 'end': 'ocs = sorted('},
+                 returns='Seq[Obj[Tag]]', raises={},
+                 ensures=[f"called('taglink') == any(member_name in {REST}[k].contents for k in range(len({REST})))",
+                          f"implies(called('taglink'), any(arg_of('taglink', 'o') == {REST}[k].contents[member_name] and member_name in {REST}[k].contents and "
+                          f"all(member_name not in {REST}[j].contents for j in range(k)) for k in range(len({REST}))))"],
+                 locals={'yielded': 'Seq[Obj[Tag]]'},
+                 loops={0: Loop(index='i', invariant=[f"all(member_name not in {REST}[j].contents for j in range(i))", "not called('taglink')"])})
